@@ -103,6 +103,10 @@ def gen(ctx):
                 R = ident_or_quoted(rng.choice(ks)) if ks else R
                 if rng.random() < 0.3:
                     R = R + rng.choice([".a", "[0]", ".*", "[*]"])
+                elif rng.random() < 0.25:
+                    # a right-hand side that maps null to something else: the per-element law must apply it to null elements too
+                    R = rng.choice(["type(@)", "not_null(@, `1`)", "to_string(@)", "to_array(@)", "length(to_array(@))", "to_array(@)[0]",
+                                    "type(%s)" % R, "not_null(%s, 'd')" % R])
                 if form == "filter":
                     B = rng.choice([ident_or_quoted(rng.choice(ks)) if ks else "a", "@", "`true`", ident_or_quoted(rng.choice(ks)) + " == `1`" if ks else "a"])
                 if form == "pipe":
